@@ -110,7 +110,7 @@ def rule_U2(ctx, rule="U2"):
                         recv = describe(dbody, dbody.origin_operand(ct["args"][0]))
                         ln = describe(dbody, dbody.origin_operand(ct["args"][1]))
                         # the length is a field of the guard; which one?
-                        ctx.ob(rule, dk, "set_len-args", recv.startswith("*p1.") and ln.startswith("*p1."), how="set_len(%s, %s)" % (recv, ln), detail="guard publishes set_len(%s, %s)" % (recv, ln))
+                        ctx.ob(rule, dk, "set_len-args", recv.startswith("p1.") and ln.startswith("p1."), how="set_len(%s, %s)" % (recv, ln), detail="guard publishes set_len(%s, %s)" % (recv, ln))
                         # in the enclosing fn: that field is only advanced after the bytes were written
                         try:
                             fidx = int(ln.rsplit(".", 1)[1])
